@@ -767,6 +767,14 @@ fn check_triple<T: Sc>(o: &mut Out, case: &Case, p: &[Coord<T>], ex: &[XP], ligh
         let ring = LineString::new(vec![p[0], p[1], p[2], p[0]]);
         let exp = if s > 0 { "Some(CounterClockwise)" } else { "Some(Clockwise)" };
         judge(o, case, "winding_order", "LineString(3-ring)", exp, call(|| wo_name(ring.winding_order())));
+        // the open line string through the same coordinates has no winding order: neither clockwise nor counter-clockwise
+        let open = LineString::new(vec![p[0], p[1], p[2]]);
+        judge(o, case, "winding_order", "LineString(open)", "None/false/false", call(|| if open.winding_order().is_none() && !open.is_cw() && !open.is_ccw() { "None/false/false" } else { "a winding order, is_cw or is_ccw" }));
+    }
+    if !light && s == 0 && (p[0] != p[1] || p[1] != p[2]) {
+        // an exactly collinear triple closed into a ring encloses nothing: no winding order, neither cw nor ccw
+        let ring = LineString::new(vec![p[0], p[1], p[2], p[0]]);
+        judge(o, case, "winding_order", "LineString(flat 3-ring)", "None/false/false", call(|| if ring.winding_order().is_none() && !ring.is_cw() && !ring.is_ccw() { "None/false/false" } else { "a winding order, is_cw or is_ccw" }));
     }
 }
 
